@@ -333,6 +333,7 @@ func oracle(pl *plan, w *relaysim.World, preps []*prepCall, stopT time.Duration,
 			}
 		}
 		signerFailed := map[int]bool{}
+		var failedReqs []*SignReq
 		for _, q := range reqs {
 			if in(q.Step) {
 				if q.T > windowEnd {
@@ -340,8 +341,65 @@ func oracle(pl *plan, w *relaysim.World, preps []*prepCall, stopT time.Duration,
 				}
 				if q.Outcome == "error" || q.Outcome == "cancelled" {
 					signerFailed[q.KeyIndex] = true
+					failedReqs = append(failedReqs, q)
 				}
 			}
+		}
+		// Which registration was being signed when the signer failed?  A failed signature only excuses the
+		// relays whose registration carries that content (fee recipient, gas limit): the others must still be served.
+		var candsAll []*relaysim.Doc
+		excused := func(v *relaysim.Val, rr *relaysim.RRelay) bool {
+			any := false
+			for _, q := range failedReqs {
+				if q.KeyIndex != v.KeyIndex {
+					continue
+				}
+				any = true
+				attributed := false
+				for _, dt := range []time.Duration{0, -time.Second, time.Second} {
+					m := &relaysim.RegRec{Fee: relaysim.FeeAddr(rr.Fee), Gas: rr.Gas, Timestamp: SimEpoch.Add(q.T + dt).Round(time.Second), PubKey: v.PubKey}
+					root := m.Root()
+					sd := &phase0.SigningData{ObjectRoot: root, Domain: domain}
+					sroot, err := sd.HashTreeRoot()
+					if err != nil {
+						return true
+					}
+					if string(q.Data) == string(root[:]) || string(q.Data) == string(sroot[:]) {
+						attributed = true
+					}
+				}
+				if attributed {
+					return true
+				}
+			}
+			if !any {
+				return false
+			}
+			// failed requests of this validator that match none of its resolved registrations (e.g. another
+			// configuration was in force): cannot tell, excuse
+			for _, q := range failedReqs {
+				if q.KeyIndex != v.KeyIndex {
+					continue
+				}
+				known := false
+				for _, cc := range candsAll {
+					for _, r2 := range relaysim.Resolve(w, cc, v).Relays {
+						for _, dt := range []time.Duration{0, -time.Second, time.Second} {
+							m := &relaysim.RegRec{Fee: relaysim.FeeAddr(r2.Fee), Gas: r2.Gas, Timestamp: SimEpoch.Add(q.T + dt).Round(time.Second), PubKey: v.PubKey}
+							root := m.Root()
+							sd := &phase0.SigningData{ObjectRoot: root, Domain: domain}
+							sroot, _ := sd.HashTreeRoot()
+							if string(q.Data) == string(root[:]) || string(q.Data) == string(sroot[:]) {
+								known = true
+							}
+						}
+					}
+				}
+				if !known {
+					return true
+				}
+			}
+			return false
 		}
 		if firstSub >= 0 {
 			windowEnd = firstSub
@@ -352,6 +410,7 @@ func oracle(pl *plan, w *relaysim.World, preps []*prepCall, stopT time.Duration,
 			}
 		}
 		cands := w.Source.InForce(rd.T, windowEnd)
+		candsAll = cands
 		if len(cands) > 1 {
 			out.Probes["round-overlaps-refresh"]++
 		}
@@ -418,8 +477,12 @@ func oracle(pl *plan, w *relaysim.World, preps []*prepCall, stopT time.Duration,
 						break
 					}
 				}
-				if prob == nil && !signerFailed[v.KeyIndex] {
+				if prob == nil {
 					for _, n := range ref.RelayList() {
+						if !seen[n] && signerFailed[v.KeyIndex] && excused(v, ref.Relays[n]) {
+							out.Probes["relay-excused-signature-failed"]++
+							continue
+						}
 						if !seen[n] {
 							kind := "C11/registration-missing"
 							if blocked {
